@@ -38,4 +38,10 @@ CLAIMED.update({
  },
 })
 
+CLAIMED['C17'] = {
+  'text': 'Models: PmlParse.v (precedence-climbing parser over the operator table regenerated by probing the compiled parser), Pml.v (evaluator/store of PromelaDataModel with defect switches; reference semantics c_eval with 32-bit wrapping ints). 18 theorems, unbounded where the property is: parse(print e) = e for every expression under the C table and under any table that passes the finite 324+36 check; eval_correct (every well-typed expression, every store: value = c_eval, faults become error.execution); exec_correct and store_read_after_write for arrays/fields; eval_no_crash; _refuted lemmas with witnesses for the pinned code; verdict theorems over the regenerated table/switch vector. Tied to the code by translators (coq/gen/GenPmlPrec.v, GenPmlEval.v) and by exhaustive correspondence: all 324,813 expressions of depth <= 3 in minimal and full parenthesisation, AST dumps, random deeper ones, statement sequences, through evalAsData/assign and the parser, crashes contained in child processes.',
+  'note': 'Trusted: Coq kernel (closed under the global context), extraction, c_eval as reading of Promela/C integer semantics (shift by out-of-range count unspecified), the flex lexer and token rendering, vd_pml.cpp, pml_probe.py. Modelled not verified: int variables only; a[i].f / a.f[i] outside the parser model; ++/-- outside exec_correct.',
+  'technique': 'Coq proofs (induction on expressions, table simulation) + translator-regenerated operator table + exhaustive depth-3 differential correspondence',
+}
+
 NOT_APPLICABLE = {p: _PENDING for p in ['C%02d' % i for i in range(1, 21)] if p not in CLAIMED}
